@@ -801,7 +801,7 @@ class SimulatorBattery:
         T = 0.5
         prod = Product(payoff_underlying=Spot(), payoff=Vanilla(strike=100.0, payoff_type=PayoffType.CALL), maturity=T)
 
-        def audit(tag, path, eps):
+        def audit(tag, path, eps, T=T):
             t = np.asarray(path.jump_times, float)
             jp, dp = np.atleast_2d(np.asarray(path.jump_path, float)), np.atleast_2d(np.asarray(path.diffusion_path, float))
             info = {"simulator": tag, "epsilon": eps, "times": t[:12].tolist()}
@@ -819,7 +819,7 @@ class SimulatorBattery:
         with warnings.catch_warnings():
             warnings.simplefilter("ignore")
             np.random.seed(1234 + seed)
-            for eps in (None, 0.04):
+            for eps in (None, 0.04, T / 10):       # T / 10: the maturity is a whole number of caps (rounding of the last inserted point)
                 p = MarkovChainProcess(model=m, method=SamplingMethod.INVERSION, grid=CTMCUniformGrid(h=0.02, model=m))
                 p.initialisation(prod, max_step_epsilon=eps)
                 p.pre_computation(40, prod)
@@ -835,6 +835,23 @@ class SimulatorBattery:
                     for _ in range(40):
                         ev += 1
                         audit(f"coupling level {level}", cp.simulate_one_path_with_coupling(), eps)
+            # maturities that are a whole number of caps in exact arithmetic but not in floats (0.7 = 10 x 0.07, 5 = 15 x 1/3):
+            # the point the insertion computes for the maturity itself must not survive next to the maturity
+            for T7, n7 in ((0.7, 10), (5.0, 15)):
+                prod7 = Product(payoff_underlying=Spot(), payoff=Vanilla(strike=100.0, payoff_type=PayoffType.CALL), maturity=T7)
+                p7 = MarkovChainProcess(model=m, method=SamplingMethod.INVERSION, grid=CTMCUniformGrid(h=0.05, model=m))
+                p7.initialisation(prod7, max_step_epsilon=T7 / n7)
+                p7.pre_computation(10, prod7)
+                for _ in range(10):
+                    ev += 1
+                    audit(f"MCSimulationMaximumStep, maturity {T7} = {n7} caps", p7.simulate_one_path(), T7 / n7, T7)
+                cp7 = CouplingMarkovChain(model=m, method=SamplingMethod.INVERSION, grid=CTMCUniformGrid(h=0.1, model=m))
+                cp7.initialisation(prod7)
+                cp7.next_level(10, [type("PM", (), {"update": lambda s, x: None, "deterministic_path": None})()], prod7, max_step_epsilon=T7 / n7)
+                cp7.pre_computation(10, prod7)
+                for _ in range(10):
+                    ev += 1
+                    audit(f"coupling level 1, maturity {T7} = {n7} caps", cp7.simulate_one_path_with_coupling(), T7 / n7, T7)
             # Levy-copula chain and its coupling with a step cap (low intensity: paths without any jump are frequent)
             try:
                 from rpylib.process.markovchain.markovchainlevycopula import MarkovChainLevyCopula
